@@ -74,4 +74,19 @@ theorem keyed_rows (kc : PV → String) (fmt : Int → String) (rows : List PV) 
     | cons a rest ih => intro i; simp [List.zipIdx_cons, keyedPV, ih]
   exact this rows 0
 
+/-- code points of a text, as the `Df.Sort` model orders them -/
+def cp (s : String) : List Nat := s.toList.map Char.toNat
+
+/-- with `'\\x01{:08x}'.format(i)` rendering the separator and eight hex digits (the correspondence compares the real
+rendering with `hexW 8`), the keys the generator pairs the rows with are the model's `fullKey`s: the keyed list is
+`Df.Sort.keyed` -/
+theorem keyed_is_model (kc : PV → String) (fmt : Int → String)
+    (hfmt : ∀ i : Nat, cp (fmt i) = Df.Sort.sep :: Df.Sort.hexW 8 i) (rows : List PV) :
+    rows.zipIdx.map (fun ri => (cp (kc ri.1 ++ fmt ri.2), ri.1)) = Df.Sort.keyed (fun r => cp (kc r)) rows := by
+  unfold Df.Sort.keyed Df.Sort.fullKey
+  apply List.map_congr_left
+  intro ri _
+  have : cp (kc ri.1 ++ fmt ri.2) = cp (kc ri.1) ++ cp (fmt ri.2) := by simp [cp, String.toList_append]
+  rw [this, hfmt]
+
 end Df.Tie.SortProc
